@@ -6,3 +6,5 @@ pub mod vm;
 
 #[cfg(kani)]
 mod c33_align;
+#[cfg(kani)]
+mod c23_header;
